@@ -1,0 +1,36 @@
+//go:build verif
+
+package modeling
+
+import "unsafe"
+
+// VerifSliceInfo describes one backing slice of a mesh. Compiled only with the
+// `verif` build tag; used by the verification harness as evidence that
+// hazardous storage states (spare capacity, shared backing arrays) were
+// reached. It never influences behaviour.
+type VerifSliceInfo struct {
+	Name string
+	Len  int
+	Cap  int
+	Base uintptr
+}
+
+// VerifStorage lists len, cap and base address of every backing slice of m.
+func VerifStorage(m Mesh) []VerifSliceInfo {
+	var out []VerifSliceInfo
+	out = append(out, VerifSliceInfo{"indices", len(m.indices), cap(m.indices), uintptr(unsafe.Pointer(unsafe.SliceData(m.indices)))})
+	out = append(out, VerifSliceInfo{"materials", len(m.materials), cap(m.materials), uintptr(unsafe.Pointer(unsafe.SliceData(m.materials)))})
+	for k, v := range m.v1Data {
+		out = append(out, VerifSliceInfo{"1:" + k, len(v), cap(v), uintptr(unsafe.Pointer(unsafe.SliceData(v)))})
+	}
+	for k, v := range m.v2Data {
+		out = append(out, VerifSliceInfo{"2:" + k, len(v), cap(v), uintptr(unsafe.Pointer(unsafe.SliceData(v)))})
+	}
+	for k, v := range m.v3Data {
+		out = append(out, VerifSliceInfo{"3:" + k, len(v), cap(v), uintptr(unsafe.Pointer(unsafe.SliceData(v)))})
+	}
+	for k, v := range m.v4Data {
+		out = append(out, VerifSliceInfo{"4:" + k, len(v), cap(v), uintptr(unsafe.Pointer(unsafe.SliceData(v)))})
+	}
+	return out
+}
